@@ -936,8 +936,8 @@ def judge(op, container, kinds, tags, operands=None, labels=None):
     if ref_kind == "untagged" and rel == "both-none":
         r.nontrivial = False  # the untagged call compared with itself
     if st == "exc":
-        if ref[0] == "exc" and type(got) is ref[1]:
-            return r  # the raw call fails the same way
+        if ref[0] == "exc" and isinstance(got, ref[1]):
+            return r  # the raw call fails the same way (a more specific subclass of the reference's exception is the same failure)
         want = f"raises {ref[1].__name__}" if ref[0] == "exc" else "no error"
         r.fail(f"{op}:same:raised-{type(got).__name__}:{tkey}",
                f"{what}: operands have the same CRS (EPSG class {cls_label(c0)}) but the call raised "
